@@ -285,7 +285,7 @@ func NewHTTPTargeter(src io.Reader, body []byte, hdr http.Header) Targeter {
 		tgt.Body = body
 		tgt.Header = http.Header{}
 		for k, vs := range hdr {
-			tgt.Header[k] = vs
+			tgt.Header[k] = append([]string(nil), vs...)
 		}
 
 		tokens := strings.SplitN(line, " ", 2)
